@@ -2,6 +2,11 @@
 
 package vgirpc
 
+import (
+	"github.com/apache/arrow-go/v18/arrow"
+	"github.com/apache/arrow-go/v18/arrow/ipc"
+)
+
 // Verification hooks (build tag "verif"): thin exported wrappers around the
 // shared-memory allocator internals. Add-only; nothing here is compiled into
 // normal builds.
@@ -44,3 +49,24 @@ func (s *ShmSegment) VerifHeaderPrefix() []byte {
 
 // VerifValidateHeader re-validates magic/version/data_size.
 func (s *ShmSegment) VerifValidateHeader() error { return s.validateHeader() }
+
+// VerifShmWireSizes returns the two environment values AllocateAndWrite derives
+// from Arrow for a non-dictionary batch: the capacity pre-check estimate and the
+// exact number of bytes it will allocate (schema message + payload + EOS).
+func (s *ShmSegment) VerifShmWireSizes(batch arrow.RecordBatch) (estimate, total int, err error) {
+	estimate = estimateSerializedSize(batch)
+	payload, err := ipc.GetRecordBatchPayload(batch, ipc.WithAllocator(defaultAllocator()))
+	if err != nil {
+		return 0, 0, err
+	}
+	defer payload.Release()
+	sizer := &shmCountWriter{}
+	if _, err := payload.WritePayload(sizer); err != nil {
+		return 0, 0, err
+	}
+	schemaBytes, err := s.cachedSchemaBytes(batch.Schema())
+	if err != nil {
+		return 0, 0, err
+	}
+	return estimate, len(schemaBytes) + sizer.n + len(ipcEOS), nil
+}
